@@ -663,10 +663,58 @@ def run_looprange_probe(sh):
     G.unload(mod)
 
 
+def run_slicepair_case(sh, case):
+  """two update blocks that EACH write two mutually overlapping slices of one wire (legal inside one block: the later statement
+  wins), plus blocks that only read some of the slices - declared in every order, so that the slice objects are created in every
+  order.  When a slice of one block overlaps a slice of the other, every order is refused with MultiWriterError; when the two
+  blocks keep to disjoint bit ranges, every order elaborates"""
+  import itertools
+  rng = sh.rng("slicepair", case)
+  W = 16
+  cross = rng.random() < 0.6
+  a0 = rng.randrange(0, 2); a1 = a0 + rng.randrange(3, 5); a2 = a1 - rng.randrange(1, 3); a3 = a2 + rng.randrange(3, 5)      # A: [a0:a1], [a2:a3] overlap
+  b0 = (a3 - rng.randrange(1, 3)) if cross else a3 + rng.randrange(0, 2)                                                 # B starts inside / behind A's second slice
+  b1 = b0 + rng.randrange(3, 5); b2 = b1 - rng.randrange(1, 3); b3 = min(W, b2 + rng.randrange(3, 5))
+  if not (b2 < b3): return
+  A = [(a0, a1), (a2, a3)]; B = [(b0, b1), (b2, b3)]
+  if rng.random() < 0.5: A.reverse()
+  if rng.random() < 0.5: B.reverse()
+  readers = rng.sample(A + B, rng.randrange(1, 3))
+  blocks = {"wa": ["    @update", "    def wa():"] + [f"      s.x[{l}:{h}] @= s.in_[0:{h - l}]" for l, h in A],
+            "wb": ["    @update", "    def wb():"] + [f"      s.x[{l}:{h}] @= s.in_[1:{h - l + 1}]" for l, h in B]}
+  for i, (l, h) in enumerate(readers):
+    blocks[f"rd{i}"] = ["    @update", f"    def rd{i}():", f"      s.o[{i}] @= zext(s.x[{l}:{h}], {W})"]
+  names = sorted(blocks)
+  perms = list(itertools.permutations(names))
+  rng.shuffle(perms)
+  seen = {}
+  for perm in perms[:12]:
+    src = "\n".join(["from pymtl3 import *", "class SPTop(Component):", "  def construct(s):",
+                     f"    s.in_ = InPort({W}); s.x = Wire({W}); s.o = [OutPort({W}) for _ in range({len(readers)})]"] + [l for nm in perm for l in blocks[nm]]) + "\n"
+    mod = G.load_source(src, "c09sp")
+    try:
+      try: mod.SPTop().elaborate(); oc = None
+      except Exception as e: oc = type(e).__name__
+    finally:
+      G.unload(mod)
+    sh.count("elaborations"); sh.count("slice_pair_orders_judged")
+    seen[perm] = oc
+    if cross and oc is None:
+      sh.violation("defective-design-elaborated-without-error", {"defect": "two blocks write overlapping slices of one wire", "block_order": list(perm), "block_A_slices": A, "block_B_slices": B,
+                   "expected": ["MultiWriterError"], "design_source": src}, case=("slicepair", case)); return
+    if cross and oc != "MultiWriterError":
+      sh.violation("defective-design-rejected-with-unrelated-error", {"defect": "two blocks write overlapping slices of one wire", "got": oc, "block_order": list(perm), "design_source": src}, case=("slicepair", case)); return
+    if not cross and oc is not None:
+      sh.violation("defect-free-design-rejected", {"outcome": oc, "block_order": list(perm), "block_A_slices": A, "block_B_slices": B, "design_source": src},
+                   case=("slicepair", case)); return
+  sh.count("slice_pair_designs_with_cross_overlap" if cross else "slice_pair_designs_disjoint")
+
+
 def run_shard(sh):
   if sh.idx == 0: run_looprange_probe(sh)
   for case in range(6 if sh.tier == "quick" else 60):
     run_twice_probe(sh, sh.idx * 1000 + case)
+    run_slicepair_case(sh, sh.idx * 1000 + case)
   for case in range(12 if sh.tier == "quick" else 200):
     run_holey(sh, sh.idx * 1000 + case)
   for case in range(6 if sh.tier == "quick" else 60):
